@@ -8,11 +8,27 @@ kind 'attempt' harnesses are capped explorations whose timeout is recorded as "n
 ALL = []
 
 
-def H(name, prop, desc, bounds, tier="q", kind="required", cap_s=300, mem_gb=3, family=None, also=(), stubs=(),
-      assumes=(), sample=False, noalloc=False, covers_may_fail=()):
-    ALL.append(dict(name=name, prop=prop, desc=desc, bounds=bounds, tier=tier, kind=kind, cap_s=cap_s, mem_gb=mem_gb,
-                    family=family or ("p_" + prop.lower()), also=list(also), stubs=list(stubs), assumes=list(assumes),
-                    sample=sample, noalloc=noalloc, covers_may_fail=list(covers_may_fail)))
+STUBSETS = {
+    # name -> (kani attributes, human description for the evidence file)
+    "none": ([], []),
+    "float": (["#[kani::stub(lexical_core::parse, crate::stubs::lexical_parse_stub)]"],
+              ["lexical_core::parse::<f32|f64> -> contract stub returning the harness's symbolic float (integer "
+               "requests still run the real lexical-core)"]),
+}
+
+
+def H(name, prop, fn, desc, bounds, tier=None, kind=None, cap_s=300, mem_gb=3, family=None, also=(), stubset="none",
+      unwind=None, assumes=(), sample=False, noalloc=False, covers_may_fail=(), full_only=True):
+    """name: <prop>_<q|t>[a]_<what>; fn: Rust path of the obligation function below crate::checks"""
+    parts = name.split("_")
+    tier = tier or parts[1][0]
+    kind = kind or ("attempt" if parts[1].endswith("a") else "required")
+    assert tier in ("q", "t") and name.startswith(prop.lower() + "_") or family
+    assert not any(h["name"] == name for h in ALL), name
+    ALL.append(dict(name=name, prop=prop, fn=fn, desc=desc, bounds=bounds, tier=tier, kind=kind, cap_s=cap_s,
+                    mem_gb=mem_gb, family=family or ("p_" + prop.lower()), also=list(also), stubset=stubset,
+                    stubs=STUBSETS[stubset][1], unwind=unwind, assumes=list(assumes), sample=sample, noalloc=noalloc,
+                    covers_may_fail=list(covers_may_fail), full_only=full_only and not noalloc))
 
 
 def for_property(pid, tier):
@@ -40,13 +56,34 @@ FLOAT_STUB = ("lexical_core::parse::<f32|f64> -> contract stub: returns the harn
 INTS = ["u8", "i8", "u16", "i16", "u32", "i32", "u64", "i64", "usize", "isize"]
 
 # ---------------------------------------------------------------------------- C07
+def F(t):
+    return "f32" if t in ("u8", "i8", "u16", "i16") else "f64"
+
+
 for t in INTS:
-    H(f"c07_q_kernel_{t}", "C07",
-      f"{t}::try_from(DecimalNumericProgramData) on the float fallback path: for EVERY non-NaN "
-      f"{'f32' if t in ('u8', 'i8', 'u16', 'i16') else 'f64'} the literal can denote, the result is the nearest "
-      f"integer (either neighbour at a tie) when representable and -222 otherwise",
-      "all 2^32 f32 / 2^64 f64 bit patterns except NaN; one query", cap_s=120, mem_gb=2, stubs=[FLOAT_STUB],
-      also=["C01"], sample=(t in ("i32", "u8")))
+    H(f"c07_q_kernel_{t}", "C07", f"c07::kernel::<{t}, _>",
+      f"{t}::try_from(DecimalNumericProgramData) on the float fallback path: for EVERY non-NaN {F(t)} the literal can "
+      f"denote, the result is the nearest integer (either neighbour at a tie) when representable and -222 otherwise",
+      f"all non-NaN {F(t)} bit patterns; one query", cap_s=120, mem_gb=2, stubset="float", also=["C01"],
+      sample=(t in ("i32", "u8")))
+    H(f"c07_q_nondec_{t}", "C07", f"c07::nondecimal::<{t}, _>",
+      f"{t}::try_from(NonDecimalNumericProgramData(v)) == exact value if v <= MAX else -222", "all 2^64 values",
+      cap_s=120, mem_gb=2, also=["C01"])
+    H(f"c07_q_other_{t}", "C07", f"c07::otherkinds::<{t}, _>",
+      f"{t}: suffixed literal -> -138, string/block/expression -> -104", "3 symbolic payload bytes, 4 token kinds",
+      cap_s=120, mem_gb=2, also=["C01", "C08"])
+    for n in (3, 7):
+        H(f"c07_q_char{n}_{t}", "C07", f"c07::chardata::<{t}, {n}, _>",
+          f"{t} from character data of {n} bytes: MIN/MAX keyword (short/long, any case) -> bound, anything else -104",
+          f"all 2^{8*n} byte strings of length {n}", cap_s=120, mem_gb=2, unwind=9, also=["C01", "C08"])
+H("c07_q_bool_numeric", "C07", "c07::bool_numeric", "bool from a decimal literal == 'rounds to non-zero', for every "
+  "non-NaN f64", "all non-NaN f64", cap_s=120, mem_gb=2, stubset="float", also=["C08"])
+for t, n, tier in [("u8", 3, "q"), ("u8", 4, "q"), ("i8", 4, "q"), ("u16", 5, "q"), ("i16", 5, "q"), ("i32", 5, "q"),
+                   ("u64", 5, "q"), ("i16", 6, "t"), ("i32", 9, "ta"), ("u32", 10, "ta"), ("i64", 10, "ta")]:
+    H(f"c07_{tier}_nr1_{t}_n{n}", "C07", f"c07::nr1::<{t}, {n}, _>",
+      f"{t} from every NR1 literal of exactly {n} bytes (optional sign, digits) through the REAL lexical-core integer "
+      f"parser == reference accumulator value, or -222 when outside the type", f"all NR1 literals of {n} bytes",
+      cap_s=(3600 if tier == "ta" else 600), mem_gb=4, stubset="float", unwind=12, also=["C01"])
 
 PROPS = {
     "C07": {
